@@ -201,6 +201,14 @@ fn(PW + ".handle", params={"event": _ev.IO_EVENTS}, task="reader", model_opts=PW
        ("C13.handover.h2", "implies(call_index('H2Port.initiate') >= 0, isinstance(self.protocol, H2Protocol) and self.protocol.g_initiated and not same(self.protocol, old(self.protocol)))", "C13"),
        ("C13.no-switch-keeps", "implies(call_index('H2Port.initiate') < 0, same(self.protocol, old(self.protocol)))", "C13"),
        ("C13.handover.event-first", "call_index('Port.handle') == 0 and same(call_args('Port.handle')[0], old(self.protocol)) and same(call_args('Port.handle')[1], event)", "C13"),
+       # ... the bytes: everything h11 had buffered and not consumed travels in the exception (they
+       # may have arrived in earlier reads than the one that completed the preface / the upgrade
+       # request), and that -- not the read that triggered the switch -- is what HTTP/2 is given
+       ("C13.handover.bytes", "implies(call_index('H2Port.initiate') >= 0, "
+        "count_calls('H2Port.handle') == (1 if len(call_raised('H11Port.handle').data) != 0 else 0) "
+        "and implies(count_calls('H2Port.handle') == 1, isinstance(call_args('H2Port.handle')[1], RawData) and call_args('H2Port.handle')[1].data == call_raised('H11Port.handle').data))", "C13"),
+       ("C13.handover.h2c-request", "implies(call_index('H2Port.initiate') >= 0 and isinstance(call_raised('H11Port.handle'), H2CProtocolRequiredError), "
+        "same(call_args('H2Port.initiate')[1], call_raised('H11Port.handle').headers) and same(call_args('H2Port.initiate')[2], call_raised('H11Port.handle').settings))", "C13"),
        ("C13.handover.only-after-h11-says-so", "implies(call_index('H2Port.initiate') >= 0, isinstance(old(self.protocol), H11Protocol))", "C13"),
    ],
    props=("C04", "C13"))
